@@ -908,6 +908,28 @@ def sc_tril(n, c, e0, e1, upper=0):
                f"mask compares {vals} for element ({e0},{e1}), upper={up}")
 
 
+def sc_meshgrid3(n0, n1, n2, c, ij, which, e0, e1, e2):
+    """meshgrid of THREE coordinate vectors: 'xy' swaps only the first two axes (NumPy), 'ij' none"""
+    _start()
+    xp = _xp()
+    ns = (sx.conc(n0), sx.conc(n1), sx.conc(n2))
+    c_ = sx.conc(c)
+    vs = [G.stub_array(nm, (n,), (min(c_, n),)) for nm, n in zip("xyz", ns)]
+    indexing = ["xy", "ij"][sx.conc(ij)]
+    grids = xp.meshgrid(*vs, indexing=indexing)
+    shape = (ns[1], ns[0], ns[2]) if indexing == "xy" else ns
+    w = sx.conc(which)
+    out = grids[w]
+    _declared_ok(out, shape)
+    idx = (e0, e1, e2)
+    for k in range(3):
+        sx.assume(idx[k] < shape[k])
+    # grid w varies along the axis where input w sits: axis w for 'ij'; for 'xy' inputs 0 and 1 sit on axes 1 and 0
+    axis_of = {0: 1, 1: 0, 2: 2}[w] if indexing == "xy" else w
+    t, _ = _elem(out, idx)
+    sx.require(anp.term_mult(t, ("xyz"[w], (idx[axis_of],))) == 1, "meshgrid-varies-along-the-wrong-axis", f"grid {w} at {idx}: {t}")
+
+
 def sc_max_split(n, c, s, j):
     _start()
     sx.assume(c <= n)
@@ -1025,6 +1047,7 @@ SCENARIOS = {
     "index[int-array]": (sc_take_indices, lambda N: [("n", 1, N), ("c", 1, N), ("i0", 0, N), ("i1", 0, N), ("e", 0, 1)]),
     "linspace": (sc_linspace, lambda N: [("n", 1, N), ("c", 1, N), ("e", 0, N)]),
     "tril/triu": (sc_tril, lambda N: [("n", 1, 4), ("c", 1, 4), ("e0", 0, 4), ("e1", 0, 4), ("upper", 0, 1)]),
+    "meshgrid[3-inputs]": (sc_meshgrid3, lambda N: [("n0", 1, 3), ("n1", 1, 3), ("n2", 1, 2), ("c", 1, 2), ("ij", 0, 1), ("which", 0, 2), ("e0", 0, 2), ("e1", 0, 2), ("e2", 0, 1)]),
     "max[split_every]": (sc_max_split, lambda N: [("n", 1, N + 2), ("c", 1, N + 2), ("s", 2, 4), ("j", 0, N + 2)]),
     "concat[axis1-2d]": (sc_concat_axis1, lambda N: [("n", 1, 4), ("m1", 1, 3), ("m2", 1, 3), ("c", 1, 4), ("c2", 1, 3), ("e0", 0, 3), ("e1", 0, 5)]),
     "roll/flip[axis1-2d]": (sc_roll_flip_2d, lambda N: [("n", 1, 4), ("m", 1, 4), ("c", 1, 4), ("c2", 1, 4), ("sh", -2, 3), ("which", 0, 1), ("e0", 0, 3), ("e1", 0, 3)]),
